@@ -38,7 +38,7 @@ func (t *c03Ty) id() string {
 	case "st":
 		return "st" + strconv.Itoa(t.S)
 	}
-	return t.K
+	return t.K // prims, if, fn, ks
 }
 
 func (t *c03Ty) src() string {
@@ -65,6 +65,8 @@ func (t *c03Ty) src() string {
 		return "IF"
 	case "fn":
 		return "func(int) int"
+	case "ks":
+		return "KS"
 	}
 	panic("bad type " + t.K)
 }
@@ -113,7 +115,7 @@ type c03Gen struct {
 func (g *c03Gen) nestsAgg(t *c03Ty) bool {
 	switch t.K {
 	case "arr":
-		return t.E.K == "arr" || t.E.K == "st"
+		return t.E.K == "arr" || t.E.K == "st" || t.E.K == "ks"
 	case "st":
 		for _, f := range g.structs[t.S] {
 			if f.K == "arr" || f.K == "st" {
@@ -167,8 +169,11 @@ func (g *c03Gen) ty(d, byVal, byRef int) *c03Ty {
 		return &c03Ty{K: "sl", E: g.ty(d-1, byRef, byRef)}
 	case 7, 8:
 		ky := c03Str
-		if g.n(0, 2, "ikey") == 0 {
+		switch g.n(0, 4, "ikey") {
+		case 0:
 			ky = c03Int
+		case 1:
+			ky = c03CKeys[g.n(0, len(c03CKeys)-1, "ckey")]
 		}
 		// map values of declared / interface types are favoured: their types are
 		// stored as references and must be re-resolved when the map is loaded
@@ -205,11 +210,66 @@ func (g *c03Gen) ty(d, byVal, byRef int) *c03Ty {
 var c03StrKeys = []string{`"a"`, `"b"`, `"c"`, `"k"`}
 var c03IntKeys = []string{"0", "1", "2", "7"}
 
-func (g *c03Gen) key(t *c03Ty, l string) string {
-	if t.K == "int" {
-		return c03IntKeys[g.n(0, 3, l)]
+// Composite map keys. KS is a declared comparable struct holding a pointer;
+// K0..K2 are package variables of type *S0 (ordinary variables for the rest of
+// the grammar: statements re-point them, alias them, mutate their pointees).
+var (
+	c03PS0   = &c03Ty{K: "ptr", E: &c03Ty{K: "st", S: 0}}
+	c03KS    = &c03Ty{K: "ks"}
+	c03CKeys = []*c03Ty{
+		c03PS0,                            // pointer key
+		{K: "arr", N: 2, E: c03PS0},       // array of pointers
+		c03KS,                             // struct with a pointer
+		{K: "if"},                         // interface holding pointers / declared values
+		{K: "arr", N: 2, E: c03Int},       // array of primitives
+		{K: "arr", N: 2, E: c03KS},        // array of structs with pointers
 	}
-	return c03StrKeys[g.n(0, 3, l)]
+)
+
+func c03Composite(kt *c03Ty) bool { return kt.K != "int" && kt.K != "str" }
+
+// keyExprs lists the key expressions used for a key type (literals, lookups,
+// deletes, rendering); the arg-dependent ones come last.
+func (g *c03Gen) keyExprs(kt *c03Ty, args bool) []string {
+	var out []string
+	switch kt.id() {
+	case "int":
+		out = append([]string{}, c03IntKeys...)
+		if args {
+			out = append(out, "a")
+		}
+	case "str":
+		out = append([]string{}, c03StrKeys...)
+		if args {
+			out = append(out, "s")
+		}
+	case "p_st0":
+		out = []string{"K0", "K1", "K2"}
+	case "a2_p_st0":
+		out = []string{"[2]*S0{K0, K1}", "[2]*S0{K1, K0}", "[2]*S0{K2, nil}"}
+	case "ks":
+		out = []string{"KS{P: K0, I: 1}", "KS{P: K1, I: 1}", "KS{P: K0, I: 2}"}
+		if args {
+			out = append(out, "KS{P: K2, I: a}")
+		}
+	case "if":
+		out = []string{"IF(K0)", "IF(K1)", "IF(VI(3))", "IF(VI(4))"}
+	case "a2_int":
+		out = []string{"[2]int{1, 2}", "[2]int{2, 1}"}
+		if args {
+			out = append(out, "[2]int{a, 1}")
+		}
+	case "a2_ks":
+		out = []string{"[2]KS{KS{P: K0, I: 1}, KS{P: K1, I: 2}}", "[2]KS{KS{P: K1, I: 1}, KS{P: nil, I: 0}}", "[2]KS{KS{P: K2, I: 1}, KS{P: K2, I: 1}}"}
+	default:
+		panic("no key expressions for " + kt.id())
+	}
+	return out
+}
+
+func (g *c03Gen) key(t *c03Ty, l string) string {
+	ks := g.keyExprs(t, false)
+	return ks[g.n(0, len(ks)-1, l)]
 }
 
 func (g *c03Gen) lit(t *c03Ty, b int) string {
@@ -278,6 +338,8 @@ func (g *c03Gen) lit(t *c03Ty, b int) string {
 			parts = append(parts, fmt.Sprintf("F%d: %s", i, g.lit(fs[i], b-1)))
 		}
 		return t.src() + "{" + strings.Join(parts, ", ") + "}"
+	case "ks":
+		return fmt.Sprintf("KS{P: K%d, I: %d}", g.n(0, 2, "ksp"), g.n(0, 2, "ksi"))
 	case "if":
 		if b <= 0 { // no further struct literals below the budget (they may nest interfaces again)
 			if g.n(0, 1, "ifleaf") == 0 {
@@ -353,16 +415,22 @@ func (g *c03Gen) children(p c03Place, args bool) []c03Place {
 			add(p.X+"[a]", p.T.E, true, true, "a >= 0 && a < len("+p.X+")")
 		}
 	case "map":
-		k := `"a"`
-		if p.T.Ky.K == "int" {
-			k = "1"
-		}
-		add(p.X+"["+k+"]", p.T.E, true, false, p.X+" != nil")
-		if args {
+		if c03Composite(p.T.Ky) {
+			for _, k := range g.keyExprs(p.T.Ky, args) {
+				add(p.X+"["+k+"]", p.T.E, true, false, p.X+" != nil")
+			}
+		} else {
+			k := `"a"`
 			if p.T.Ky.K == "int" {
-				add(p.X+"[a]", p.T.E, true, false, p.X+" != nil")
-			} else {
-				add(p.X+"[s]", p.T.E, true, false, p.X+" != nil")
+				k = "1"
+			}
+			add(p.X+"["+k+"]", p.T.E, true, false, p.X+" != nil")
+			if args {
+				if p.T.Ky.K == "int" {
+					add(p.X+"[a]", p.T.E, true, false, p.X+" != nil")
+				} else {
+					add(p.X+"[s]", p.T.E, true, false, p.X+" != nil")
+				}
 			}
 		}
 	}
@@ -559,7 +627,7 @@ func (g *c03Gen) stmt(sc *c03Scope) string {
 				return c03Guard(p.Conds, p.X+" += 77")
 			}
 			return asgRV()
-		case "arr", "st":
+		case "arr", "st", "ks":
 			if !p.Asg {
 				continue
 			}
@@ -598,13 +666,10 @@ func (g *c03Gen) stmt(sc *c03Scope) string {
 			switch op := g.n(0, 6, "mop"); {
 			case op <= 3:
 				e, c, _ := g.rv(sc, p.T.E, "")
-				k := g.key(p.T.Ky, "mk")
-				if sc.args && g.n(0, 1, "argkey") == 0 {
-					if p.T.Ky.K == "int" {
-						k = "a"
-					} else {
-						k = "s"
-					}
+				kx := g.keyExprs(p.T.Ky, sc.args)
+				k := kx[g.n(0, len(kx)-1, "mk")]
+				if sc.args && !c03Composite(p.T.Ky) && g.n(0, 1, "argkey") == 0 {
+					k = kx[len(kx)-1]
 				}
 				wr()
 				return c03Guard(c03Conds(p.Conds, []string{p.X + " != nil"}, c), p.X+"["+k+"] = "+e)
@@ -692,12 +757,24 @@ func (g *c03Gen) renderFuncs() string {
 		case "sl":
 			fmt.Fprintf(&sb, "\tif x == nil {\n\t\treturn \"nil\"\n\t}\n\tout := \"s\" + itoa(len(x)) + \"/\" + itoa(cap(x)) + \"[\"\n\tfor i := 0; i < len(x); i++ {\n\t\tout += r_%s(x[i], d) + \",\"\n\t}\n\treturn out + \"]\"\n", t.E.id())
 		case "map":
+			if c03Composite(t.Ky) {
+				// entries sorted by their rendering (keys rendered by pointee
+				// contents, never by address), then explicit lookups
+				fmt.Fprintf(&sb, "\tif x == nil {\n\t\treturn \"nilm\"\n\t}\n\tif d <= 0 {\n\t\treturn \"m^\"\n\t}\n\tents := []string{}\n\tfor k, v := range x {\n\t\tents = append(ents, r_%s(k, d-1)+\":\"+r_%s(v, d-1))\n\t}\n\tsortStrs(ents)\n\tout := \"m\" + itoa(len(x)) + \"{\"\n\tfor _, e := range ents {\n\t\tout += e + \",\"\n\t}\n\tout += \"}has:\"\n", t.Ky.id(), t.E.id())
+				for _, k := range g.keyExprs(t.Ky, false) {
+					fmt.Fprintf(&sb, "\tif v, ok := x[%s]; ok {\n\t\tout += \"1\" + r_%s(v, d-1)\n\t} else {\n\t\tout += \"0\"\n\t}\n", k, t.E.id())
+				}
+				sb.WriteString("\treturn out\n")
+				break
+			}
 			srt := "sortStrs"
 			kt := "string"
 			if t.Ky.K == "int" {
 				srt, kt = "sortInts", "int"
 			}
 			fmt.Fprintf(&sb, "\tif x == nil {\n\t\treturn \"nilm\"\n\t}\n\tks := []%s{}\n\tfor k := range x {\n\t\tks = append(ks, k)\n\t}\n\t%s(ks)\n\tout := \"m\" + itoa(len(x)) + \"{\"\n\tfor _, k := range ks {\n\t\tout += r_%s(k, d) + \":\" + r_%s(x[k], d) + \",\"\n\t}\n\treturn out + \"}\"\n", kt, srt, t.Ky.id(), t.E.id())
+		case "ks":
+			sb.WriteString("\treturn \"k{\" + r_p_st0(x.P, d) + \" \" + itoa(x.I) + \"}\"\n")
 		case "ptr":
 			fmt.Fprintf(&sb, "\tif x == nil {\n\t\treturn \"nil\"\n\t}\n\tif d <= 0 {\n\t\treturn \"^\"\n\t}\n\treturn \"&\" + r_%s(*x, d-1)\n", t.E.id())
 		case "st":
@@ -708,11 +785,12 @@ func (g *c03Gen) renderFuncs() string {
 			}
 			sb.WriteString("\treturn out + \"}\"\n")
 		case "if":
-			sb.WriteString("\tif x == nil {\n\t\treturn \"nili\"\n\t}\n\tn := \"?\"\n\tswitch x.(type) {\n\tcase *NI:\n\t\tn = \"NI\"\n\tcase VI:\n\t\tn = \"VI\"\n")
+			// nil-pointer safe: interface map keys may hold a nil *S0
+			sb.WriteString("\tif x == nil {\n\t\treturn \"nili\"\n\t}\n\tswitch v := x.(type) {\n\tcase *NI:\n\t\tif v == nil {\n\t\t\treturn \"iNI(nilp)\"\n\t\t}\n\t\treturn \"iNI(\" + itoa(v.Get()) + \")\"\n\tcase VI:\n\t\treturn \"iVI(\" + itoa(v.Get()) + \")\"\n")
 			for i := range g.structs {
-				fmt.Fprintf(&sb, "\tcase *S%d:\n\t\tn = \"S%d\"\n", i, i)
+				fmt.Fprintf(&sb, "\tcase *S%d:\n\t\tif v == nil {\n\t\t\treturn \"iS%d(nilp)\"\n\t\t}\n\t\treturn \"iS%d(\" + itoa(v.Get()) + \")\"\n", i, i, i)
 			}
-			sb.WriteString("\t}\n\treturn \"i\" + n + \"(\" + itoa(x.Get()) + \")\"\n")
+			sb.WriteString("\t}\n\treturn \"i?\"\n")
 		case "fn":
 			sb.WriteString("\tif x == nil {\n\t\treturn \"nilf\"\n\t}\n\treturn \"f(\" + itoa(x(0)) + \")\"\n")
 		}
@@ -878,6 +956,12 @@ func c03DrawProg(rt *rapid.T, pkg string, minFn, maxFn int) c03Prog {
 		}
 		g.structs[i] = fs
 	}
+	// key material for composite map keys, then the drawn variables
+	g.reg(c03PS0)
+	g.reg(c03KS)
+	for i := 0; i < 3; i++ {
+		g.vars = append(g.vars, c03Var{Name: "K" + strconv.Itoa(i), T: c03PS0})
+	}
 	nv := g.n(3, 6, "nvars")
 	for i := 0; i < nv; i++ {
 		t := g.reg(g.ty(g.n(1, 3, "vdepth"), nst, nst))
@@ -887,6 +971,24 @@ func c03DrawProg(rt *rapid.T, pkg string, minFn, maxFn int) c03Prog {
 	// capacity and an array of ints are always present.
 	g.vars = append(g.vars, c03Var{Name: "V" + strconv.Itoa(nv), T: g.reg(&c03Ty{K: "sl", E: c03Int})})
 	g.vars = append(g.vars, c03Var{Name: "V" + strconv.Itoa(nv+1), T: g.reg(&c03Ty{K: "arr", N: 4, E: c03Int})})
+	// two maps with composite keys of different kinds (pointer, array of
+	// pointers, struct with pointer, interface, array of ints, array of structs)
+	{
+		k1 := g.n(0, len(c03CKeys)-1, "ck1")
+		k2 := (k1 + 1 + g.n(0, len(c03CKeys)-2, "ck2")) % len(c03CKeys)
+		for j, ki := range []int{k1, k2} {
+			var et *c03Ty
+			switch g.n(0, 3, "cmelem") {
+			case 0, 1:
+				et = c03Int
+			case 2:
+				et = &c03Ty{K: "if"}
+			default:
+				et = c03PS0
+			}
+			g.vars = append(g.vars, c03Var{Name: "M" + strconv.Itoa(j), T: g.reg(&c03Ty{K: "map", Ky: c03CKeys[ki], E: et})})
+		}
+	}
 
 	// alias variables: package variables initialised to share state with a
 	// place of the base variables (pointer to it, sub-slice of it, copy of a
@@ -948,6 +1050,7 @@ func c03DrawProg(rt *rapid.T, pkg string, minFn, maxFn int) c03Prog {
 		sb.WriteString("}\n\n")
 		fmt.Fprintf(&sb, "func (s *S%d) Get() int   { return s.N }\nfunc (s *S%d) Bump(d int) { s.N += d }\n\n", i, i)
 	}
+	sb.WriteString("type KS struct {\n\tP *S0\n\tI int\n}\n\n")
 	for _, v := range g.vars {
 		fmt.Fprintf(&sb, "var %s %s\n", v.Name, v.T.src())
 	}
